@@ -3,6 +3,7 @@ package checks
 import (
 	"bytes"
 	"fmt"
+	"sort"
 	"strings"
 
 	wire "github.com/jeroenrinzema/psql-wire"
@@ -19,8 +20,8 @@ type c13 struct{ base }
 
 func init() {
 	core.Register(c13{base{id: "C13", level: "exploration", quickB: 16, thoroughB: 32,
-		rule: "after a scripted COPY handler starts COPY-in (1-20 columns, text or binary), the client sends sequences over {CopyData(payload of size 0,1,4095-4097,near L,random), Flush, Sync} ended by one of {CopyDone, CopyFail(text), Query, Parse, unknown-type message, oversized CopyData, Terminate, nothing (handler stops first)}, followed by stray CopyData/CopyDone/CopyFail and a probe Query; handler variants: read to the end and propagate errors / answer an abort with its own error / stop after k chunks with its own error / stop after k chunks and complete / swallow the abort and complete; the handler's own error is plain or wraps io.ErrUnexpectedEOF, net.ErrClosed, context.Canceled or io.EOF. Simple-Query mode and Execute mode (trailing Sync). quick: exhaustive sequences of length <= 4 over a 6-symbol alphabet x terminators + random length <= 8; lock-step, every step's reply and the chunks/errors the handler observed are compared with the COPY model. Non-trivial = abort path, interleaved Flush/Sync, stop-early handler or stray messages; distinct = (mode, handler variant, message-kind sequence).",
-		need:        []string{"copy_cycles", "chunks_compared", "copyfail_aborts", "foreign_message_aborts", "flush_sync_ignored", "stray_copy_messages", "handler_stops_early", "execute_mode_cycles"},
+		rule:        "after a scripted COPY handler starts COPY-in (1-20 columns, text or binary), the client sends sequences over {CopyData(payload of size 0,1,4095-4097,near L,random), Flush, Sync} ended by one of {CopyDone, CopyFail(text), Query, Parse, unknown-type message, oversized CopyData, Terminate, nothing (handler stops first)}, followed by stray CopyData/CopyDone/CopyFail and a probe Query; handler variants: read to the end and propagate errors / answer an abort with its own error / stop after k chunks with its own error / stop after k chunks and complete / swallow the abort and complete; the handler's own error is plain or wraps io.ErrUnexpectedEOF, net.ErrClosed, context.Canceled or io.EOF. Simple-Query mode and Execute mode (trailing Sync). Row-reader part: generated binary tables (1-3 columns, 0-3 rows, with/without trailer) cut into CopyData messages with interleaved Flush/Sync, read through the binary row reader of the library, ended by CopyDone / CopyFail / Query / Parse / unknown message - rows must arrive, CopyDone is io.EOF, everything else a non-EOF error also after the trailer. quick: exhaustive sequences of length <= 4 over a 6-symbol alphabet x terminators + random length <= 8; lock-step, every step's reply and the chunks/errors the handler observed are compared with the COPY model. Non-trivial = abort path, interleaved Flush/Sync, stop-early handler or stray messages; distinct = (mode, handler variant, message-kind sequence).",
+		need:        []string{"row_reader_cycles", "copy_cycles", "chunks_compared", "copyfail_aborts", "foreign_message_aborts", "flush_sync_ignored", "stray_copy_messages", "handler_stops_early", "execute_mode_cycles"},
 		assumptions: append([]string{"'exactly one ErrorResponse' is judged for handlers that propagate the reader's error or fail themselves; a handler that swallows the abort and completes is judged for well-formedness, chunk fidelity and a single ReadyForQuery"}, commonAssumptions...)}})
 }
 
@@ -413,6 +414,153 @@ func (ch c13) runCase(c *core.Ctx, env *hs.Env, k c13case, rng *core.Rng, idx in
 	}
 }
 
+// runRows: the same end-of-stream / abort rules observed through the library's binary row
+// reader: a well-formed binary stream (with or without the trailer) cut into CopyData
+// messages interleaved with Flush/Sync, then the terminator, lock-step.
+func (ch c13) runRows(c *core.Ctx, env *hs.Env, rng *core.Rng, idx int) {
+	t := c14gen(rng, true)
+	stream, _ := t.encode()
+	term := core.Pick(rng, []string{"done", "fail", "fail", "query", "parse", "unknown"})
+	handler := core.Pick(rng, []string{"propagate", "propagate", "swallow"})
+	exec := rng.Intn(3) == 0
+	sig := fmt.Sprintf("rows cols=%d rows=%d trailer=%v exec=%v h=%s %s", len(t.OIDs), len(t.Rows), t.Trailer, exec, handler, term)
+	cs := map[string]any{"case": sig}
+	viol := func(rule, s, detail string) {
+		c.Violate(rule, s, fmt.Sprintf("case %s: %s", sig, detail), cs)
+	}
+	cols := wire.Columns{}
+	for j, o := range t.OIDs {
+		cols = append(cols, wire.Column{Name: fmt.Sprintf("c%d", j), Oid: oid.Oid(o), Width: -1})
+	}
+	plan := &hs.CopyPlan{Format: wire.BinaryFormat, MaxReads: -1, OnErr: "propagate", Binary: true}
+	if handler == "swallow" {
+		plan.OnErr = "complete"
+	}
+	probe := &hs.Prog{Stmts: []*hs.Stmt{{ID: "probe", Cols: textCols(1), Ops: []hs.Op{{K: "row", Vals: []any{"p"}}, {K: "complete", Tag: "SELECT 1"}}}}}
+	sess := &hs.Sess{Progs: map[string]*hs.Prog{
+		"copy":  {Stmts: []*hs.Stmt{{ID: "copy", Cols: cols, Params: []oid.Oid{}, Ops: []hs.Op{{K: "copy", Copy: plan}}}}},
+		"probe": probe, "never": probe,
+	}}
+	cl := hs.NewClient(env.Dial(sess))
+	if err := cl.StartupOK("u"); err != nil {
+		viol("startup", "startup failed", err.Error())
+		return
+	}
+	defer cl.Finish()
+	step := func(what string, in []byte, want string) bool {
+		out, closed := cl.Step(in)
+		if hangCheck(c, cl, cs) {
+			return false
+		}
+		msgs, err := parseAll(out)
+		if err != nil {
+			viol("grammar", "reply not well-formed after "+what, err.Error())
+			return false
+		}
+		if got := pg.Types(msgs); closed || got != want {
+			viol("reply", fmt.Sprintf("row reader, after %s (handler %s, exec=%v, trailer=%v): got %q want %q", what, handler, exec, t.Trailer, got, want), fmt.Sprintf("closed=%v %s", closed, trim(replyKinds(out), 300)))
+			return false
+		}
+		return true
+	}
+	if exec {
+		if !step("Parse/Bind/Execute", append(append(pg.Parse("", "copy", nil), pg.Bind("", "", nil, nil, nil)...), pg.Execute("", 0)...), "12G") {
+			return
+		}
+	} else if !step("Query", pg.Query("copy"), "TG") {
+		return
+	}
+	c.Count("row_reader_cycles", 1)
+	var cuts []int
+	for n := rng.Intn(5); n > 0; n-- {
+		cuts = append(cuts, 1+rng.Intn(len(stream)))
+	}
+	if t.Trailer && rng.Bool() {
+		cuts = append(cuts, len(stream)-2) // the trailer in a message of its own
+	}
+	sort.Ints(cuts)
+	prev := 0
+	for _, k := range append(cuts, len(stream)) {
+		if k <= prev {
+			continue
+		}
+		if !step(fmt.Sprintf("CopyData [%d:%d] of %d", prev, k, len(stream)), pg.CopyData(stream[prev:k]), "") {
+			return
+		}
+		prev = k
+		if rng.Intn(4) == 0 {
+			if !step("Flush/Sync inside COPY", core.Pick(rng, [][]byte{pg.Flush(), pg.Sync()}), "") {
+				return
+			}
+		}
+	}
+	end := func(kind string) string {
+		if exec {
+			return kind
+		}
+		return kind + "Z"
+	}
+	var termMsg []byte
+	want := end("E")
+	switch term {
+	case "done":
+		termMsg, want = pg.CopyDone(), end("C")
+	case "fail":
+		termMsg = pg.CopyFail("client gives up after the rows")
+		c.Count("copyfail_aborts", 1)
+	case "query":
+		termMsg = pg.Query("never")
+	case "parse":
+		termMsg = pg.Parse("x", "never", nil)
+	default:
+		termMsg = pg.Raw('F', []byte{0, 0, 0, 1})
+	}
+	if term != "done" && handler == "swallow" {
+		want = end("C")
+	}
+	if !step("terminator "+term, termMsg, want) {
+		return
+	}
+	var got []hs.CopyRec
+	for _, e := range cl.C.Events() {
+		if e.Kind == "cb" && e.Name == "copyread" {
+			got = append(got, e.Data.(hs.CopyRec))
+		}
+	}
+	if len(got) != len(t.Rows)+1 {
+		viol("rows", "row reader observations differ from the rows sent", fmt.Sprintf("%d observations for %d rows + end", len(got), len(t.Rows)))
+		return
+	}
+	for i, w := range t.Rows {
+		if !got[i].ErrNil {
+			viol("rows", "row reader failed on a well-formed row", got[i].Err)
+			return
+		}
+		if d := c14rowEq(t.OIDs, got[i].Row, w); d != "" {
+			viol("rows", "row differs from the row sent", fmt.Sprintf("row %d: %s", i, d))
+			return
+		}
+		c.Count("chunks_compared", 1)
+	}
+	last := got[len(got)-1]
+	if term == "done" {
+		if !last.EOF {
+			viol("done", "CopyDone did not surface as io.EOF (row reader)", fmt.Sprintf("observation %+v", last))
+			return
+		}
+	} else if last.ErrNil || last.EOF {
+		viol("abort-as-success", fmt.Sprintf("%s surfaced to the row reader as %s", term, map[bool]string{true: "end-of-stream", false: "success"}[last.EOF]), fmt.Sprintf("observation %+v", last))
+		return
+	}
+	if exec && !step("Sync", pg.Sync(), "Z") {
+		return
+	}
+	if !step("probe Query", pg.Query("probe"), "TDCZ") {
+		return
+	}
+	c.Eval(sig, term != "done" || t.Trailer)
+}
+
 func mustMsgs(out []byte) []pg.BMsg {
 	m, _, _ := pg.ParseStream(out)
 	return m
@@ -514,5 +662,12 @@ func (ch c13) Run(c *core.Ctx) {
 		}
 		fix(&k, rng)
 		ch.runCase(c, env, k, rng, idx)
+	}
+	for i := c.Batch; i < nrand/5; i += nb {
+		idx = 3000000 + i
+		if !c.Begin(idx) || c.NViol() >= 10 {
+			continue
+		}
+		ch.runRows(c, env, core.NewRng(c.Seed, "C13rows", 0, i), idx)
 	}
 }
